@@ -790,7 +790,8 @@ def attempts_of(t):
     out = []
     for c in t.calls:
         if c.site == 'src.getData':
-            out.append({'name': c.mib, 'src': c.comp, 'got': c.ok, 'ok': c.ok, 'mods': [], 'parse_calls': 0, 'exc': c.exc})
+            out.append({'name': c.mib, 'src': c.comp, 'got': c.ok, 'ok': c.ok, 'mods': [], 'parse_calls': 0, 'exc': c.exc,
+                        'info': c.res[0] if c.ok and isinstance(c.res, tuple) else None})
         elif c.site == 'parser.parse' and out:
             a = out[-1]
             a['parse_calls'] += 1
